@@ -77,6 +77,8 @@ def run(ctx):
     ctx.negative_control(r.violated == "AllReadable", "model: instant-delete + early-delete-index must violate AllReadable")
     # commands deriving a snapshot from snapshots of the repository (merge / rewrite / repair-snapshots): trees, index, snapshot,
     # then (rewrite --forget, repair --delete) removal of the sources - every crash point; snapshot-first must fail
+    # a command may write an index file with what it has indexed so far at any moment (several index files per command)
+    vlib.mc(ctx, "MCRepo.tla", "MCRepoPartialFlush.cfg", workers=8, timeout=1800)
     vlib.mc(ctx, "MCRepo.tla", "MCRepoDerive.cfg", workers=8, timeout=1800)
     r = vlib.tlc("MCRepo.tla", "MCRepoDeriveSnapFirst.cfg", workers=4, timeout=900, metadir=os.path.join(ctx.out, "mc-snapfirst"))
     ctx.negative_control(r.violated == "AllReadable", "model: a derived snapshot saved before its trees are flushed must violate AllReadable")
